@@ -64,3 +64,50 @@ func contract_UnmarshalOptions_unmarshal(o UnmarshalOptions, b []byte, m protore
 	ensures(imp(err == nil && !o.AllowPartial, out.Flags&protoiface.UnmarshalInitialized != 0 || specInitVerdict(err)))
 	return
 }
+
+// ---------------------------------------------------------------- the central marshal function (C10, C16)
+//
+//   - C16: the fast-path marshaler may be told to trust cached sizes only after the sizes of this
+//     very message have been recomputed in this call (methods.Size called on it), unless the caller
+//     itself vouches for the caches through the UseCachedSize option (documented as the caller's
+//     responsibility: that case is outside the verified domain).
+//   - C10: without AllowPartial a nil error is returned only with checkInitialized's verdict.
+
+// specSized marks a message whose cached sizes were recomputed by a methods.Size call (uninterpreted).
+//
+//@ uninterpreted
+func specSized(m protoreflect.Message) bool { return true }
+
+// Table invariant of protoiface.Methods.Size: by definition it recomputes (and caches) the sizes.
+func fieldcontract_Methods_Size(in protoiface.SizeInput) (out protoiface.SizeOutput) {
+	ensuresTrusted(specSized(in.Message))
+	return
+}
+
+// Table invariant of protoiface.Methods.Marshal as used by marshal: cached sizes are only to be
+// trusted for a message that has just been sized.
+func fieldcontract_Methods_Marshal(in protoiface.MarshalInput) (out protoiface.MarshalOutput, err error) {
+	requires(imp(in.Flags&protoiface.MarshalUseCachedSize != 0, specSized(in.Message)))
+	return
+}
+
+// flags copies the two user options into the internal flag word and sets nothing else.
+//
+//@ props C16
+//@ mode int
+func contract_MarshalOptions_flags(o MarshalOptions) (f protoiface.MarshalInputFlags) {
+	ensures(iff(f&protoiface.MarshalUseCachedSize != 0, o.UseCachedSize))
+	ensures(iff(f&protoiface.MarshalDeterministic != 0, o.Deterministic))
+	return
+}
+
+//@ props C10 C16
+//@ mode int
+//@ nopanic
+//@ guard-errors
+func contract_MarshalOptions_marshal(o MarshalOptions, b []byte, m protoreflect.Message) (out protoiface.MarshalOutput, err error) {
+	domain(!o.UseCachedSize) // callers setting the deprecated option take over the obligation themselves
+	modifiesAll()
+	ensures(imp(err == nil && !o.AllowPartial, specInitVerdict(err)))
+	return
+}
